@@ -174,7 +174,8 @@ class Hist:
         def check(res):
             out = []
             exp = {'eq': a == b, 'ne': a != b, 'cmp': rel, 'pcmp': rel, 'lt': a < b, 'le': a <= b, 'gt': a > b, 'ge': a >= b,
-                   'maxa': (a >= b) if a != b else None, 'mina': (a <= b) if a != b else None}
+                   'maxa': (a >= b) if a != b else None, 'mina': (a <= b) if a != b else None,
+                   'vmaxa': a >= b, 'vmina': a <= b, 'clampa': True, 'clampb': True}
             for nm, w in exp.items():
                 got = res.get(nm)
                 if w is None:
